@@ -49,6 +49,17 @@ def make(si, enc):
     return p
 
 
+def _other_cooler():
+    import cooler
+    key = ("c18other",)
+    if key not in fx._cache:
+        p = scratch.fresh()
+        cooler.create_cooler(p, build.bins_df([("zzOnly", 0, 2), ("zzOnly", 2, 4)]), fx.frame(fx.pixvals([(0, 1)], 2)), columns=["count", "score"],
+                             dtypes={"score": float}, ordered=True)
+        fx._cache[key] = p
+    return fx._cache[key]
+
+
 def options(names, k):
     nm = names[k]
     out = [("keep", nm), ("longer", nm + "_renamed_to_something_much_longer"), ("shorter", nm[-1] if len(nm) > 1 else "Z" + nm), ("fresh", "n%d" % k)]
@@ -177,7 +188,11 @@ def _maps(R, unit, only):
             clr = cooler.Cooler(p)
             bs, bo = snapshot(p), observe(clr)
             try:
-                cooler.rename_chroms(clr, dict(d))
+                # the map is given with its entries in REVERSED table order (entries must be matched by key), and the very same dict
+                # object is first offered to another cooler that has none of these chromosomes (a no-op there)
+                dd = dict(reversed(list(d.items())))
+                cooler.rename_chroms(cooler.Cooler(_other_cooler()), dd)
+                cooler.rename_chroms(clr, dd)
             except Exception as e:
                 R.mismatch("rename-raises:" + type(e).__name__, inner, f"{e!s:.200}")
                 continue
